@@ -156,11 +156,11 @@ type Job struct {
 	Consts      map[string]string `json:"consts,omitempty"`
 	Scale       bool              `json:"scale_invariant,omitempty"` // counterexamples may be scaled to integers
 	Cube        int               `json:"cube,omitempty"`            // number of nonlinear polynomials to case-split by sign
-	NoCover     bool              `json:"-"`
+	NoCover     bool              `json:"no_cover,omitempty"`
 	Abstract    bool              `json:"abstract_floats,omitempty"` // harness runs with uninterpreted float arithmetic: cover witnesses are not replayed natively
 	Combine     bool              `json:"combine,omitempty"`         // one query per path: the disjunction of all assertion violations
 	LatticeOnly int               `json:"lattice_only,omitempty"`    // if >0: only search integer coordinates |c| <= bound (bug hunting on the lattice, no claim beyond it)
-	NoLattice   bool              `json:"-"`
+	NoLattice   bool              `json:"no_lattice,omitempty"`
 	Note        string            `json:"note,omitempty"`
 }
 
@@ -187,11 +187,11 @@ type OblResult struct {
 	N          int    `json:"combined_assertions,omitempty"`
 	combLabels []string
 	combOff    int
-	model      map[string]string
-	traces     map[string]string
+	Model      map[string]string `json:"model,omitempty"`
+	Traces     map[string]string `json:"traces,omitempty"`
 	job        *Job
-	verdict    string // ok | violation | inconclusive | known
-	detail     string
+	Verdict    string `json:"verdict,omitempty"`
+	Detail     string `json:"detail,omitempty"`
 }
 
 type JobResult struct {
@@ -350,7 +350,7 @@ func (r *Runner) symExec(job *Job, jr *JobResult) (paths []pathResult, err error
 			res := solve([]*Term{t}, ScriptOpts{}, r.feasTO)
 			return res.status
 		}
-		st := &State{base: tTrue, pc: tTrue, heap: map[*Object]Value{}, regs: map[ssa.Value]Value{}}
+		st := &State{base: tTrue, pc: tTrue, heap: newHeap(), regs: map[ssa.Value]Value{}}
 		perr := func() (e error) {
 			defer func() {
 				if rec := recover(); rec != nil {
@@ -396,6 +396,7 @@ func (r *Runner) symExec(job *Job, jr *JobResult) (paths []pathResult, err error
 // runJob: symbolic execution in the calling goroutine, solver queries dispatched to the pool.
 func (r *Runner) runJob(job Job) *JobResult {
 	jr := &JobResult{Job: job}
+	r.program(job.Consts) // load outside the timed section
 	start := time.Now()
 	paths, err := r.symExec(&job, jr)
 	jr.SymMs = time.Since(start).Milliseconds()
@@ -543,11 +544,11 @@ func (r *Runner) dispatch(q *pendingQuery, nTraces int, traceNames []string) {
 func (r *Runner) solveOne(q *pendingQuery, traceNames []string) {
 	sr, _ := portfolio(q.script, q.intSmall, q.timeout, q.noRetry)
 	if sr.status == "error" {
-		q.res.detail = firstLines(sr.raw, 3)
+		q.res.Detail = firstLines(sr.raw, 3)
 	}
 	q.res.Status = sr.status
 	if keepQueries {
-		q.res.detail += fmt.Sprintf(" q%d", sr.qid)
+		q.res.Detail += fmt.Sprintf(" q%d", sr.qid)
 	}
 	q.res.Ms = sr.ms
 	q.res.Solver = sr.solver
@@ -564,8 +565,8 @@ func (r *Runner) solveOne(q *pendingQuery, traceNames []string) {
 			}
 		}
 		if ok {
-			q.res.model = model
-			q.res.traces = extractTraces(sr, len(q.getvals), traceNames)
+			q.res.Model = model
+			q.res.Traces = extractTraces(sr, len(q.getvals), traceNames)
 			if q.res.combLabels != nil {
 				for i, l := range q.res.combLabels {
 					k := q.res.combOff + i
@@ -576,7 +577,7 @@ func (r *Runner) solveOne(q *pendingQuery, traceNames []string) {
 				}
 			}
 		} else {
-			q.res.detail = "model not representable as float64"
+			q.res.Detail = "model not representable as float64"
 		}
 	}
 }
@@ -602,11 +603,11 @@ func (r *Runner) dispatchCubes(parent *pendingQuery, cubes []*pendingQuery, nTra
 			ms += cq.res.Ms
 			switch cq.res.Status {
 			case "sat":
-				if status != "sat" || parent.res.model == nil {
+				if status != "sat" || parent.res.Model == nil {
 					status = "sat"
-					parent.res.model = cq.res.model
-					parent.res.traces = cq.res.traces
-					parent.res.detail = cq.res.detail
+					parent.res.Model = cq.res.Model
+					parent.res.Traces = cq.res.Traces
+					parent.res.Detail = cq.res.Detail
 					parent.res.Solver = cq.res.Solver
 				}
 			case "unsat":
